@@ -6,7 +6,7 @@ import ast
 from typing import Dict, Optional
 
 from rules import fwd as R_fwd
-from sa.astutil import call_name, guards_of, parent_map, u
+from sa.astutil import call_name, guards_of, kwarg, parent_map, u
 from sa.defuse import ReachingDefs
 from sa.model import AnalysisError, own_calls, own_nodes
 from sa.resolve import norm_name
@@ -226,6 +226,8 @@ def run(ctx: Ctx):
     okr = bool(rets) and all(u(r.value.elts[1]).endswith(".xmin") and u(r.value.elts[2]).endswith(".xmax") for r in rets)
     col.ob("G2", "S5", f"{rel}::read_textgrid::returns(transcript, xmin, xmax)", okr,
            f"read_textgrid returns {[u(r.value) for r in rets]}", rel, rt.line)
+    # ---- S7 records are ordered by their times as numbers, not as text ---------------------------------------------------
+    _numeric_sort_keys(ctx)
     # ---- S6 a loop-carried accumulator whose length is asserted at emission is drained there -------------------------
     _drained_accumulators(ctx)
     plumbing(ctx, "S1")
@@ -304,10 +306,43 @@ def _drained_accumulators(ctx: Ctx):
     col.floor("asserted_accumulators", n_sites, 1)
 
 
+def _numeric_sort_keys(ctx: Ctx):
+    """S7: `sorted(records)` / `.sort()` without a key orders tuples of regex groups - strings - lexicographically
+    ('10.000' < '2.000'). When the same fields are converted with float() afterwards, the order that matters is the
+    numeric one, so the sort must convert first (key=... float(...)) or sort the converted values."""
+    col = ctx.col
+    n_sites = 0
+    for f in ctx.owned():
+        rel = f.module.relname
+        for comp in own_nodes(f.node):
+            if not isinstance(comp, (ast.ListComp, ast.GeneratorExp)):
+                continue
+            for g in comp.generators:
+                it = g.iter
+                if not (isinstance(it, ast.Call) and call_name(it) == "sorted" and it.args and isinstance(g.target, ast.Name)):
+                    continue
+                tv = g.target.id
+                floats = [c for c in ast.walk(comp.elt) if isinstance(c, ast.Call) and call_name(c) == "float" and c.args
+                          and isinstance(c.args[0], ast.Subscript) and u(c.args[0].value) == tv]
+                if not floats:
+                    continue
+                n_sites += 1
+                nth = sum(1 for o in col.obs if o.construct.startswith(f"{rel}::{f.qualname}::records-sorted-by-numeric-time"))
+                key = kwarg(it, "key")
+                numeric_key = key is not None and any(isinstance(c, ast.Call) and call_name(c) == "float" for c in ast.walk(key))
+                col.ob("G11", "S7", f"{rel}::{f.qualname}::records-sorted-by-numeric-time[{u(it.args[0])[:40]}#{nth}]", numeric_key,
+                       f"`{u(it)[:70]}` orders the records by the text of their fields, which are converted with "
+                       f"`{u(floats[0])}` only afterwards: '10.000' sorts before '2.000', so any transcript that crosses a power "
+                       f"of ten (every file longer than 10 s) is read back out of order and its gaps are filled wrongly", rel,
+                       it.lineno, sample=u(it)[:80])
+    col.floor("text_sorted_numeric_records", n_sites, 2)
+
+
 def _mutants():
     from selftest.mutate import Mutant as M
     P = "_parsing.py"
     return [
+        M("intervals-sorted-as-text", "_parsing.py", "for x in sorted(tier.simple_transcript, key=lambda x: float(x[0]))", "for x in sorted(tier.simple_transcript)", "records-sorted-by-numeric-time", 1),
         M("repaired:textgrid-path-forwards-point-tier", "_parsing.py", "return write_textgrid(transcript, tg, start_time, end_time, tier_name, precision=precision)", "return write_textgrid(transcript, tg, start_time, end_time, tier_name, point_tier, precision)", "", twin=True),
         M("root-alternates-not-drained", "_parsing.py", "transcript.append((alt_tree.tokens[0], -1, -1))\n                alt_tree.tokens = []", "transcript.append((alt_tree.tokens[0], -1, -1))", "emitted-accumulator-is-drained"),
         M("twin:drained-by-clear", "_parsing.py", "transcript.append((alt_tree.tokens[0], -1, -1))\n                alt_tree.tokens = []", "transcript.append((alt_tree.tokens[0], -1, -1))\n                alt_tree.tokens.clear()", "", twin=True),
